@@ -4,6 +4,8 @@
 //@pin file=lrpar/src/lib/cpctplus.rs fn=recover sha=7bf51c7777e8b17b
 //@pin file=lrpar/src/lib/cpctplus.rs fn=collect_repairs sha=73788e2b2b7029c3
 //@pin file=lrpar/src/lib/cpctplus.rs fn=simplify_repairs sha=98007886e15ef655
+// PathFNode's Hash (must agree with its Eq, which is under contract in unit c05_traverse)
+//@pin file=lrpar/src/lib/cpctplus.rs fn=hash sha=fb9b997a4c77db67
 //@pin file=lrpar/src/lib/cpctplus.rs fn=recoverer sha=be65bf0498c91a62
 // Parser::lr is under contract for C07/C04 (unit c07_lr); for C05/C06 (which sequence is applied, what is reported) it is pinned
 //@pin file=lrpar/src/lib/parser.rs fn=lr sha=77bcb0844d1d0539
